@@ -274,6 +274,22 @@ theorem deliver_eq_spec (cfg : Config) (hv : Valid cfg) (t : Name) (lvl : Nat) :
   simp only [Prod.mk.injEq, fdata] at h
   simp only [deliver, hb, Option.map_some, logNode, specDeliver, specLevel_eq, effective, h.1, h.2]
 
+theorem appendLoop_eq (tbl : List Name) (fails : Name → Bool) (is : List Nat) :
+    appendLoop tbl fails is = (is.map (nameOf tbl), (is.map (nameOf tbl)).filter fails) := by
+  induction is with
+  | nil => rfl
+  | cons i is ih =>
+    simp only [appendLoop, ih, List.map_cons, List.filter_cons]
+
+theorem deliverF_eq (cfg : Config) (fails : Name → Bool) (t : Name) (lvl : Nat) :
+    deliverF cfg fails t lvl = (deliver cfg t lvl).map fun ds => (ds, ds.filter fails) := by
+  unfold deliverF deliver
+  cases build cfg with
+  | none => rfl
+  | some tree =>
+    simp only [Option.map_some, logNodeF, logNode, appendLoop_eq]
+    split <;> rfl
+
 /-! ### history machine -/
 
 theorem install_inv {c : Config} {s : State} (h : install c = some s) :
@@ -291,32 +307,49 @@ theorem install_of_valid (c : Config) (hc : Valid c) : ∃ s, install c = some s
   obtain ⟨tree, hb, _⟩ := build_spec c hc
   exact ⟨{ cfg := c, globalMax := tree.maxLevel }, by simp [install, hb]⟩
 
-theorem reconfigure_inv (cs : List Config) (s0 s : State)
-    (h0 : maxLogLevel s0.cfg = some s0.globalMax) (h : reconfigure s0 cs = some s) :
-    maxLogLevel s.cfg = some s.globalMax ∧ s.cfg = (s0.cfg :: cs).getLast (by simp) := by
-  induction cs generalizing s0 with
+/-- the two facts carried along a history: the global maximum is the installed logger's, and the installed
+configuration is the last one that was installed -/
+theorem steps_inv (sts : List Step) (s0 s : State)
+    (h0 : maxLogLevel s0.cfg = some s0.globalMax) (h : steps true s0 sts = some s) :
+    maxLogLevel s.cfg = some s.globalMax ∧
+      s.cfg = (s0.cfg :: sts.filterMap fun
+        | .setConfig c => some c
+        | .reinit _ _ => none).getLast (by simp) := by
+  induction sts generalizing s0 with
   | nil =>
-    simp only [reconfigure, Option.some.injEq] at h
+    simp only [steps, Option.some.injEq] at h
     subst h
     exact ⟨h0, rfl⟩
-  | cons c cs ih =>
-    simp only [reconfigure] at h
-    cases hi : install c with
-    | none => simp [hi] at h
-    | some s' =>
-      simp only [hi] at h
-      obtain ⟨hc, hm⟩ := install_inv hi
-      obtain ⟨r1, r2⟩ := ih s' (hc ▸ hm) h
-      refine ⟨r1, ?_⟩
-      rw [r2, hc, List.getLast_cons_cons]
+  | cons st sts ih =>
+    cases st with
+    | setConfig c =>
+      simp only [steps, step] at h
+      cases hi : install c with
+      | none => simp [hi] at h
+      | some s' =>
+        simp only [hi] at h
+        obtain ⟨hc, hm⟩ := install_inv hi
+        obtain ⟨r1, r2⟩ := ih s' (hc ▸ hm) h
+        refine ⟨r1, ?_⟩
+        rw [r2, hc]
+        simp [List.getLast_cons_cons]
+    | reinit p c =>
+      simp only [steps, step, reinit, if_true] at h
+      obtain ⟨r1, r2⟩ := ih s0 h0 h
+      exact ⟨r1, by simpa using r2⟩
 
-theorem reconfigure_total (cs : List Config) (s0 : State) (hcs : ∀ c ∈ cs, Valid c) :
-    (reconfigure s0 cs).isSome = true := by
-  induction cs generalizing s0 with
+theorem steps_total (sts : List Step) (s0 : State)
+    (hv : ∀ c, Step.setConfig c ∈ sts → Valid c) : (steps true s0 sts).isSome = true := by
+  induction sts generalizing s0 with
   | nil => rfl
-  | cons c cs ih =>
-    obtain ⟨s', hs'⟩ := install_of_valid c (hcs c (by simp))
-    simp only [reconfigure, hs']
-    exact ih s' (fun x hx => hcs x (by simp [hx]))
+  | cons st sts ih =>
+    cases st with
+    | setConfig c =>
+      obtain ⟨s', hs'⟩ := install_of_valid c (hv c (by simp))
+      simp only [steps, step, hs']
+      exact ih s' (fun x hx => hv x (by simp [hx]))
+    | reinit p c =>
+      simp only [steps, step]
+      exact ih _ (fun x hx => hv x (by simp [hx]))
 
 end Log4rs.Routing.Tree
